@@ -1305,12 +1305,15 @@ rrul_fill_mly(echs_instant_t *restrict tgt, size_t nti, rrulsp_t rr)
 		}
 		/* now skip to the first instance */
 		while (!bui31_has_bit_p(rr->mon, m)) {
-			if ((m += rr->inter) > 12) {
-				m--;
-				y += m / 12;
-				m %= 12;
-				m++;
+			/* same month stepping as in the loop below */
+			const uint_fast64_t nm =
+				(uint_fast64_t)m + rr->inter - 1U;
+
+			if (UNLIKELY(nm / 12U >= 2100U)) {
+				goto fin;
 			}
+			y += nm / 12U;
+			m = (int)(nm % 12U) + 1;
 		}
 	}
 
